@@ -79,14 +79,16 @@ var gatePc = map[string]string{"q.top": "top", "q.shortcut": "shortcut", "q.sele
 	"q.handled": "handled", "q.apply": "apply", "q.exit": "exit"}
 
 type runner struct {
-	q        *queue.TaskQueue
-	tqs      *queue.TaskQueueSet
-	c        *qgate.Ctl
-	cancel   context.CancelFunc
-	pc       string
-	cur      string
-	stopped  bool
-	poisoned bool // a panic happened inside a critical section: the queue lock may be held forever
+	q          *queue.TaskQueue
+	tqs        *queue.TaskQueueSet
+	c          *qgate.Ctl
+	cancel     context.CancelFunc
+	pc         string
+	cur        string
+	stopped    bool
+	late       bool // the set also holds the never started original queue (lateQueue)
+	unreported bool // the worker passed its last gate but the set's own WaitStopWithTimeout ran into its timeout
+	poisoned   bool // a panic happened inside a critical section: the queue lock may be held forever
 }
 
 func tune(q *queue.TaskQueue) {
@@ -129,6 +131,7 @@ func (r *runner) stop() {
 func (r *runner) lateQueue() {
 	var ids []string
 	r.q.Iterate(func(t task.Task) { ids = append(ids, t.GetId()) })
+	r.late = true
 	r.c.Close()
 	r.tqs.NewNamedQueue("late", nil)
 	r.q = r.tqs.GetByName("late")
@@ -238,6 +241,8 @@ func (r *runner) apply(st Step) (err error, retMismatch string) {
 		r.q.Filter(func(t task.Task) bool { return keep[t.GetId()] })
 	case "Stop":
 		r.stop()
+	case "CancelDelay":
+		r.q.CancelTaskDelay()
 	case "W_Start":
 		if r.tqs != nil && r.stopped {
 			r.lateQueue()
@@ -256,6 +261,17 @@ func (r *runner) apply(st Step) (err error, retMismatch string) {
 	case "W_Exit":
 		if !r.c.Release() {
 			return fmt.Errorf("worker not parked at exit"), ""
+		}
+		if r.tqs != nil && !r.late {
+			// the code's own notion of "every worker has stopped", as Shutdown uses it
+			t0 := time.Now()
+			r.tqs.WaitStopWithTimeout(4 * time.Second)
+			if time.Since(t0) < 3*time.Second {
+				r.pc = "stopped"
+			} else {
+				r.unreported = true
+			}
+			break
 		}
 		deadline := time.Now().Add(2 * time.Second)
 		for r.q.GetStatus() != "stop" && time.Now().Before(deadline) {
@@ -382,6 +398,9 @@ func replayCase(n int, steps []Step) Result {
 			}
 		}
 		// worker position
+		if r.unreported {
+			return bad("C17/stop-never-reported", "the worker passed its last gate after Stop, but TaskQueueSet.WaitStopWithTimeout(4s) ran into its timeout: the queue never counts as stopped and Shutdown always waits the full timeout")
+		}
 		if r.pc != st.Wpc {
 			if r.pc == "get" && r.stopped && st.Wpc == "exit" {
 				// the wait loop took the ticker case although the context was cancelled: see whether a task starts
